@@ -56,7 +56,7 @@ def _multi_env_padding_overflow(kind, w):
                 "Output shape must be greater than the input shape."))
 
 
-def _float32_mwkr_model(inst, history, available):
+def _float32_mwkr_model(inst, history, available, created_at=0):
     """Executable model of the observer-based most-work-remaining rule: job work
     is held in a float32 DurationObserver column (initial job sum cast to
     float32, each dispatched duration subtracted and re-rounded to float32);
@@ -64,12 +64,16 @@ def _float32_mwkr_model(inst, history, available):
     import numpy as np
 
     durations = inst["durations"]
-    rem = [np.float32(sum(job)) for job in durations]
     flat = []
     for j, job in enumerate(durations):
         for p, d in enumerate(job):
             flat.append((j, d))
-    for o, _m in history:
+    # the observer is created after `created_at` dispatches: it starts from the float32 cast
+    # of the work still unscheduled at that moment
+    before = {o for o, _ in history[:created_at]}
+    rem = [np.float32(sum(d for k, (jj, d) in enumerate(flat) if jj == j and k not in before))
+           for j in range(len(durations))]
+    for o, _m in history[created_at:]:
         j, d = flat[o]
         arr = np.array([[rem[j]]], dtype=np.float32)
         arr[0, 0] -= d
@@ -110,7 +114,8 @@ def _observer_mwkr_float32(kind, w):
         return False
     if available is None:
         return False
-    model_choice, exact = _float32_mwkr_model(inst, x.get("history", []), available)
+    model_choice, exact = _float32_mwkr_model(inst, x.get("history", []), available,
+                                              int(x.get("observer_created_at", 0)))
     if model_choice != selected:
         return False
     if kind == "c04_direct_and_observer_mwkr_differ":
